@@ -162,6 +162,9 @@ func RefBody(fields []Field, v *Values) []byte {
 
 // RefEncode is the specification image of (t, v).
 func RefEncode(t *Type, v *Values) []byte {
+	if t.BodylessOnError && v.Status != 0 {
+		return refHeader(t, v, t.HeaderLen()) // "the PDU Body is not returned if the command_status field contains a non-zero value"
+	}
 	body := RefBody(t.Fields, v)
 	out := refHeader(t, v, t.HeaderLen()+len(body))
 	return append(out, body...)
@@ -185,6 +188,10 @@ func RefDecode(t *Type, b []byte) (*Values, error) {
 		v.Seq[2] = binary.BigEndian.Uint32(b[16:20])
 	default:
 		v.Seq[2] = binary.BigEndian.Uint32(b[8:12])
+	}
+	if t.BodylessOnError && v.Status != 0 && len(b) == t.HeaderLen() {
+		blankBody(t, v)
+		return v, nil
 	}
 	rest, err := RefDecodeBody(t.Fields, b[t.HeaderLen():], v)
 	if err != nil {
@@ -296,6 +303,31 @@ func RefDecodeBody(fields []Field, b []byte, v *Values) (rest []byte, err error)
 
 // MandatoryLen is the number of octets up to and including the last mandatory field of
 // image b (the whole image without its TLV tail); -1 if b is not a complete image.
+// blankBody gives every body field the value an absent body decodes to.
+func blankBody(t *Type, v *Values) {
+	for _, f := range t.Fields {
+		switch f.Kind {
+		case "u8", "u16", "u32", "u64":
+			v.F[f.Spec] = uint64(0)
+		case "tlv":
+			v.F[f.Spec] = []TLV(nil)
+		case "list":
+			v.F[f.Spec] = [][]byte(nil)
+		case "u32x3":
+			v.F[f.Spec] = [3]uint32{}
+		default:
+			v.F[f.Spec] = []byte{}
+		}
+	}
+}
+
+// BlankBodyOnError applies the "no body when command_status is non-zero" rule to a value assignment.
+func BlankBodyOnError(t *Type, v *Values) {
+	if t.BodylessOnError && v.Status != 0 {
+		blankBody(t, v)
+	}
+}
+
 func MandatoryLen(t *Type, b []byte) int {
 	var fields []Field
 	for _, f := range t.Fields {
@@ -305,6 +337,9 @@ func MandatoryLen(t *Type, b []byte) int {
 	}
 	if len(b) < t.HeaderLen() {
 		return -1
+	}
+	if t.BodylessOnError && len(b) == t.HeaderLen() && binary.BigEndian.Uint32(b[8:12]) != 0 {
+		return len(b) // an error response: complete without a body
 	}
 	v := &Values{F: map[string]any{}}
 	rest, err := RefDecodeBody(fields, b[t.HeaderLen():], v)
